@@ -25,6 +25,10 @@ class PDPAdapter(TourAdapter):
     obs_keys = ("current_node", "i")
     tiny = 6
 
+    # witnesses of the repaired checker defect (fix 5d5f57a)
+    witnesses = (({"num_loc": 4, "force_start": False}, [1, 2], "witness:n=4,[1,2]"),
+                 ({"num_loc": 2, "force_start": True}, [0], "witness:n=2,forced,[0]"))
+
     def variants(self, tier):
         sizes = [2, 4, 6] if tier == "quick" else [2, 4, 6, 10, 20]
         return [{"num_loc": n, "force_start": f} for n in sizes for f in (False, True)]
